@@ -23,6 +23,9 @@ def peq (x y : ℝ) : Bool := decide (x = y)
 def plt (x y : ℝ) : Bool := decide (x < y)
 def ple (x y : ℝ) : Bool := decide (x ≤ y)
 
+/-- `math.fsum(l)`: exact sum. -/
+def pfsum (l : List ℝ) : ℝ := l.foldl (· + ·) 0
+
 def pi : ℝ := Real.pi
 def psin (x : ℝ) : ℝ := Real.sin x
 def pcos (x : ℝ) : ℝ := Real.cos x
